@@ -112,7 +112,7 @@ def run_job(job, io):
     rid = 1
     for cls in U.CUSTOM_CLASSES[:n_custom]:
         ns = (None, 'ns', 'ns', 'alt')[tape.draw(4, 'reg-ns')]
-        style = (0, 1, 2, 3, 5)[tape.draw(5, 'style')]
+        style = (0, 1, 2, 3, 5, 6)[tape.draw(6, 'style')]
         reg_log.append((cls.__name__, ns, style, rid))
         rid += 1
         if tape.draw(5, 'reg-both') == 4:
